@@ -245,6 +245,14 @@ def run(ctx: Ctx) -> None:
     ctx.corr_compared += 1
     if bad:
         ctx.mismatch("the parser reads renderer-only options (the model's parser has no such input)", {"keys": sorted(bad)})
+    # ---- the whole pipeline rendered under the three render options: model HTML == implementation HTML (driver `fullrender`)
+    from . import pipeline
+    from .common import Driver
+    drv = Driver()
+    try:
+        pipeline.tie_full(ctx, drv, 2000 if quick else 50000, ref=True, render=True)
+    finally:
+        drv.close()
     ctx.partial += [
         "the context clause (heading/list/quote/cell give the same inline tokens) and the parseInline/renderInline clause rest "
         "on the block rules handing the inline parser exactly t: decided by the oracle (block rules not modelled); the "
